@@ -184,6 +184,22 @@ CLAIMED['C14'] = (
     'recursion is restated in 20 lines (_tree) and compared with the real json.dumps natively; X7 recompiles three '
     'Serializable functions with hasattr(x, "__dict__") answered as the native value would', '5 C14')
 
+CLAIMED['C18'] = (
+    'per type a spelling model taken from the governing RFC (elements, separator, which deviations the RFC declares '
+    'insignificant, clause quoted per axis): the canonical spelling and a variant with ONE deviation - a letter of a '
+    'name in the other case, a run of optional whitespace at a separator / around "=" / after the colon / before '
+    'CRLF, extra empty list elements, two independent elements swapped, a value in the other token/quoted-string '
+    'form, an added unknown element - are parsed by the real parser and must give field-by-field equal objects; '
+    'position, character and run length of the deviation are the symbolic inputs. Types: HSTS, Expect-CT, '
+    'Expect-Staple, HPKP, Cache-Control, Set-Cookie, Content-Type, X-XSS-Protection, CSP, NEL, DMARC, MTA-STS, TLSRPT, '
+    'SPF, three field lines, and a 12-field header block (every field equals the field parsed alone; a field renamed '
+    'to an unknown name stays as an unparsed field with the same value and leaves the others alone). Natively: every '
+    'deviation of every axis of every model',
+    'one deviation at a time from one sample value per type; whitespace runs <= 3; quick: the first and one rotated '
+    'position range per axis and one window of 8 name characters, thorough: all. Not demanded, because the RFCs do '
+    'not declare it insignificant: case of DMARC tags (RFC 6376 3.2), of MTA-STS / TLSRPT names (%s strings), of the '
+    'SPF version; order of SPF terms; whitespace around "=" in HTTP parameters', '5 C18')
+
 NOT_APPLICABLE = {
     'C19': 'asymptotic claim (work linear in input size for n, 2n, 4n, ...): a bounded symbolic execution fixes the '
            'input size, so a pass says nothing about growth; the total-work bound needs an amortised argument over '
